@@ -21,7 +21,7 @@ def choice_code(name, n):
 pub fn custom_%(name)s(job: &hcommon::Job) -> serde_json::Value {
     use pest_typed::{ParsableTypedNode, RuleStruct};
     use t::generics;
-    match t::rules::r#%(name)s::try_parse_partial(job.full.as_str()) {
+    match t::rules::r#%(name)s::try_parse_partial(pest_typed::Span::new(job.full.as_str(), job.lo, job.hi).unwrap()) {
         Ok((_, node)) => {
             let c = node.ref_inner();
             let somes: Vec<bool> = vec![%(somes)s];
@@ -46,14 +46,16 @@ def seq_code(name, n):
     gm = ", ".join("m.%d.content.to_string()" % i for i in idx)
     ar = ", ".join("r.%d.content.to_string()" % i for i in idx)
     im = ", ".join("im.%d.content.to_string()" % i for i in idx)
-    ga = ", ".join("serde_json::json!([skp(&a.%d.skipped), a.%d.matched.content.to_string()])" % (i, i) for i in idx)
+    ga = ", ".join("serde_json::json!([skp(&|| raw(&a.%d.skipped)), a.%d.matched.content.to_string()])" % (i, i) for i in idx)
     return """
 pub fn custom_%(name)s(job: &hcommon::Job) -> serde_json::Value {
     use pest_typed::{ParsableTypedNode, RuleStruct, Spanned};
-    fn skp<'i, T: pest_typed::iterators::Pairs<'i, t::Rule>>(x: &T) -> Vec<(usize, usize)> {
+    let lo = job.lo;
+    let skp = |x: &dyn Fn() -> Vec<(usize, usize)>| -> Vec<(usize, usize)> { x().into_iter().map(|(a, b)| (a - lo, b - lo)).collect() };
+    fn raw<'i, T: pest_typed::iterators::Pairs<'i, t::Rule>>(x: &T) -> Vec<(usize, usize)> {
         x.self_or_children().iter().map(|t| (t.span.start(), t.span.end())).collect()
     }
-    match t::rules::r#%(name)s::try_parse_partial(job.full.as_str()) {
+    match t::rules::r#%(name)s::try_parse_partial(pest_typed::Span::new(job.full.as_str(), job.lo, job.hi).unwrap()) {
         Ok((_, node)) => {
             let c = node.ref_inner();
             let m = c.get_matched();
@@ -72,14 +74,16 @@ def rep_code(name, path):
     return """
 pub fn custom_%(name)s(job: &hcommon::Job) -> serde_json::Value {
     use pest_typed::{ParsableTypedNode, RuleStruct, Spanned};
-    fn skp<'i, T: pest_typed::iterators::Pairs<'i, t::Rule>>(x: &T) -> Vec<(usize, usize)> {
+    let lo = job.lo;
+    let skp = |x: &dyn Fn() -> Vec<(usize, usize)>| -> Vec<(usize, usize)> { x().into_iter().map(|(a, b)| (a - lo, b - lo)).collect() };
+    fn raw<'i, T: pest_typed::iterators::Pairs<'i, t::Rule>>(x: &T) -> Vec<(usize, usize)> {
         x.self_or_children().iter().map(|t| (t.span.start(), t.span.end())).collect()
     }
-    match t::rules::r#%(name)s::try_parse_partial(job.full.as_str()) {
+    match t::rules::r#%(name)s::try_parse_partial(pest_typed::Span::new(job.full.as_str(), job.lo, job.hi).unwrap()) {
         Ok((_, node)) => {
             let c = node.ref_inner()%(path)s;
             let im: Vec<String> = c.iter_matched().map(|x| x.content.to_string()).collect();
-            let all: Vec<serde_json::Value> = c.iter_all().map(|x| serde_json::json!([skp(&x.skipped), x.matched.content.to_string()])).collect();
+            let all: Vec<serde_json::Value> = c.iter_all().map(|x| serde_json::json!([skp(&|| raw(&x.skipped)), x.matched.content.to_string()])).collect();
             let into: Vec<String> = c.clone().into_iter_matched().map(|x| x.content.to_string()).collect();
             let into_all: Vec<String> = c.clone().into_iter_all().map(|x| x.matched.content.to_string()).collect();
             serde_json::json!({"iter_matched": im, "iter_all": all, "into_iter_matched": into, "into_iter_all": into_all, "len": c.content.len()})
@@ -94,7 +98,7 @@ def leaf_code(name, expr):
     return """
 pub fn custom_%(name)s(job: &hcommon::Job) -> serde_json::Value {
     use pest_typed::{ParsableTypedNode, RuleStruct, Spanned};
-    match t::rules::r#%(name)s::try_parse_partial(job.full.as_str()) {
+    match t::rules::r#%(name)s::try_parse_partial(pest_typed::Span::new(job.full.as_str(), job.lo, job.hi).unwrap()) {
         Ok((_, node)) => {
             let c = node.ref_inner();
             let _ = c;
@@ -118,7 +122,8 @@ def fam_arity(tier):
             custom[nm] = "custom_" + nm
             extra += choice_code(nm, n)
             exp[nm] = ("choice", n)
-        out.append(dict(id="arc%d" % gi, text="\n".join(lines), alphabet=cps("abc"), maxlen=3, custom=custom, extra=extra, expect=exp))
+        out.append(dict(id="arc%d" % gi, text="\n".join(lines), alphabet=cps("abc"), maxlen=3, custom=custom, extra=extra, expect=exp,
+                        ctxs=[[cps(a), cps(b)] for a, b in [["", ""], ["", "c"], ["", "bc"], ["a", "b"]]]))
     for gi, grp in enumerate(groups):
         lines, custom, extra, exp = [WSN], {}, "", {}
         for n in grp:
@@ -139,7 +144,7 @@ def fam_arity(tier):
                 ins.add(s.strip())
                 ins.add(s[:-2])
         out.append(dict(id="ars%d" % gi, text="\n".join(lines), alphabet=cps("ab "), maxlen=2, inputs=[cps(s) for s in sorted(ins)], custom=custom, extra=extra, expect=exp,
-                        entries=["sq%d" % n for n in grp]))
+                        entries=["sq%d" % n for n in grp], ctxs=[[cps(a), cps(b)] for a, b in [["", ""], ["", " a"], ["b", "c"]]]))
     # repetitions and leaves
     lines = [WSN, "rp0 = { ('a'..'c')* }", "rp1 = ${ ('a'..'c')* }", "rp2 = { \"x\" ~ ('a'..'c')* }",
              "lf0 = { 'a'..'\\u{ff}' }", "lf1 = { ANY }", "lf2 = { ^\"aB\" }", "lf3 = { NEWLINE }", "lf4 = { LETTER }", "lf5 = { PUSH(ANY) ~ PEEK }",
@@ -159,5 +164,5 @@ def fam_arity(tier):
     out.append(dict(id="arl0", text="\n".join(lines), alphabet=[97, 66, 233, 20013, 128512, 10, 13, 45, 120, 32, 49] if tier != "quick" else [97, 66, 233, 128512, 10, 13, 45, 32],
                     maxlen=2 if tier == "quick" else 3,
                     inputs=[cps(s) for s in ["xa b  c", "xabc", "x a", "a b c", "ab", "Ab", "AB", "aB", "\r\n", "é-é", "ÿ", "中中", "a中-中a", "a1-1a", "1", "É", "abcabc", "a  b"]],
-                    custom=custom, extra=extra, expect=exp))
+                    custom=custom, extra=extra, expect=exp, ctxs=[[cps(a), cps(b)] for a, b in [["", ""], ["", "\n"], ["", "b"], ["é", "é"], ["a", "a"]]]))
     return out
